@@ -1,4 +1,6 @@
-"""C07: (constraint list, context) with <= 6 terms over <= 5 variables: random feasible lists with planted redundant
+"""C07: contract construction (`IoContract.__init__` with simplify, and `IoContract.simplify()`): guarantees redundant only through
+a CHAIN of assumptions that share no variable with the guarantees, planted duplicates and combinations; and
+(constraint list, context) with <= 6 terms over <= 5 variables: random feasible lists with planted redundant
 terms (duplicates, positive scalings, positive combinations, terms implied only through the context), tight and
 nearly-tight (margin 1e-3) redundancies, infeasible systems, systems infeasible only with the context, calls without
 context and with an empty context, single-row lists.  Non-trivial = the list has >= 2 terms or a context."""
@@ -9,6 +11,7 @@ from fractions import Fraction
 from typing import List, Optional
 
 from .. import common as C
+from .. import contracts as K
 from .. import gen as G
 from .. import judge as J
 from ..framework import Check
@@ -24,7 +27,7 @@ class C07(Check):
                 "Pacti.C07.core_irredundant"]
     quick_n = 1500
     thorough_n = 60000
-    judge_sample = 100
+    judge_sample = 400
     trusted_base = [
         "Lean 4.33 kernel; axioms ⊆ {propext, Classical.choice, Quot.sound}",
         "hand-written model Model/Poly.lean (simplify, simplifyCore, reduce) tied to PolyhedralTermList.simplify / reduce_polytope by this correspondence run",
@@ -32,7 +35,7 @@ class C07(Check):
         "HiGHS is an oracle (certificate-checked exact simplex on the model side)",
     ]
     assumptions = ["floats denote exact rationals", "terms mention at least one variable"]
-    min_branches = {"ok": 300, "ValueError": 30, "dropped": 200, "ctx:none": 100}
+    min_branches = {"ok": 300, "ValueError": 30, "dropped": 200, "ctx:none": 100, "ctor:init": 10, "ctor:method": 5, "ctor:dropped": 10, "ctor:chain": 8}
 
     def generate(self, rng, n, tier):
         out = []
@@ -86,19 +89,34 @@ class C07(Check):
             if rng.random() < 0.3:
                 rng.shuffle(l)
             out.append({"terms": l[:6], "ctx": ctx})
+        # contract construction: "contract.g after construction"
+        for i in range(max(40, n // 8)):
+            out.append(gen_ctor(rng))
         return out
 
     def run_impl(self, case):
+        if case.get("kind") == "ctor":
+            if case["via"] == "init":
+                c = G.mk_contract(case["c"], simplify=True)
+            else:
+                c = G.mk_contract(case["c"], simplify=False)
+                c.simplify()
+            return {"ok": G.un_contract(c)}
         tl = G.mk_tl(case["terms"])
         ctx = None if case["ctx"] is None else G.mk_tl(case["ctx"])
         r = tl.simplify(ctx) if ctx is not None else tl.simplify()
         return {"ok": G.un_tl(r)}
 
     def model_request(self, case, impl):
+        if case.get("kind") == "ctor":
+            vm = C.VarMap(K.all_names(case["c"]))
+            return {"op": "ctor", "c1": K.w_contract(case["c"], vm), "simplify": True}
         vm = C.VarMap(G.names_of(case["terms"], case["ctx"] or []))
         return {"op": "simplify", "terms": G.w_tl(case["terms"], vm), "ctx": None if case["ctx"] is None else G.w_tl(case["ctx"], vm)}
 
     def compare(self, case, impl, model):
+        if case.get("kind") == "ctor":
+            return K.compare_contract_result(impl, model, C.VarMap(K.all_names(case["c"])))
         vm = C.VarMap(G.names_of(case["terms"], case["ctx"] or []))
         alts = [model, model.get("alt", model)]
         if "err" in impl:
@@ -119,6 +137,23 @@ class C07(Check):
         return f"impl kept {len(impl['ok'])} rows, model {[len(a['ok']) if 'ok' in a else a.get('err') for a in alts]}"
 
     def judge(self, case, impl):
+        if case.get("kind") == "ctor":
+            if "err" in impl:
+                # the constructor's own interface errors are C06's; a feasibility ValueError is judged like simplify's
+                l, ctx = case["c"]["g"], case["c"]["a"]
+                if impl["err"] == "ValueError":
+                    feas, pt = J.feasible(l + ctx)
+                    if feas:
+                        return {"signature": "ctor:ValueError-on-feasible", "what": "ValueError although guarantees and assumptions are jointly feasible", "witness": J.pt_str(pt)}
+                    return None
+                return {"signature": "ctor:undocumented-exception:" + impl["err"], "what": str(impl)[:300], "witness": case}
+            r = impl["ok"]
+            if not all(any(_close(t, u) for u in case["c"]["a"]) for t in r["a"]) or len(r["a"]) != len(case["c"]["a"]):
+                return {"signature": "ctor:assumptions-changed", "what": f"assumptions {r['a']} differ from the given {case['c']['a']}", "witness": case}
+            v = self.judge({"terms": case["c"]["g"], "ctx": case["c"]["a"]}, {"ok": r["g"]})
+            if v is not None:
+                v = dict(v, signature="ctor:" + v["signature"].split(":", 1)[1], what="contract.g after construction: " + v["what"])
+            return v
         l, ctx = case["terms"], (case["ctx"] or [])
         if "err" in impl:
             if impl["err"] != "ValueError":
@@ -162,6 +197,13 @@ class C07(Check):
         return None
 
     def branch(self, case, impl, model):
+        if case.get("kind") == "ctor":
+            b = ["ctor:" + case["via"]]
+            if "ok" in impl and len(impl["ok"]["g"]) < len(case["c"]["g"]):
+                b.append("ctor:dropped")
+            if case.get("chain"):
+                b.append("ctor:chain")
+            return b
         b = ["ValueError" if impl.get("err") == "ValueError" else ("ok" if "ok" in impl else impl.get("err", "?"))]
         if "ok" in impl and len(impl["ok"]) < len(case["terms"]):
             b.append("dropped")
@@ -171,7 +213,39 @@ class C07(Check):
         return b
 
     def nontrivial(self, case, impl):
+        if case.get("kind") == "ctor":
+            return len(case["c"]["g"]) >= 2 or bool(case["c"]["a"])
         return len(case["terms"]) >= 2 or bool(case["ctx"])
+
+
+def gen_ctor(rng: random.Random) -> dict:
+    """a contract whose guarantees contain terms redundant given the assumptions — in particular through a chain of
+    assumptions of which only the first shares a variable with the guarantees"""
+    ins, outs = ["i", "j", "k"][: rng.randint(2, 3)], ["o", "p"][: rng.randint(1, 2)]
+    sg = rng.choice([1.0, -1.0])
+    kk = lambda: float(rng.choice([1, 2, 3]))  # noqa: E731
+    b = float(rng.randint(0, 5))
+    a, g = [], []
+    chain = rng.random() < 0.5
+    if chain:
+        # i - j <= 0 (sg), j <= b  ==> i <= b + margin is redundant, but only through j, which no guarantee mentions
+        a = [{"c": {"i": sg, "j": -sg}, "k": 0.0}, {"c": {"j": sg}, "k": b}]
+        if len(ins) == 3 and rng.random() < 0.5:
+            a = [{"c": {"i": sg, "j": -sg}, "k": 0.0}, {"c": {"j": sg, "k": -sg}, "k": 1.0}, {"c": {"k": sg}, "k": b - 1.0}]
+        g.append({"c": {"i": sg * 1.0}, "k": b + float(rng.choice([1, 2, 5]))})
+    else:
+        a = G.bound_tl(rng, ins) if hasattr(G, "bound_tl") else [{"c": {v: sg}, "k": b} for v in ins[: rng.randint(1, len(ins))]]
+        if rng.random() < 0.6 and a:
+            t = rng.choice(a)
+            g.append({"c": dict(t["c"]), "k": t["k"] + float(rng.choice([0, 1, 2]))})     # implied by / equal to an assumption
+    for o in outs:
+        g.append({"c": {o: kk() * rng.choice([-1.0, 1.0]), rng.choice(ins): kk() * rng.choice([-1.0, 1.0])}, "k": float(rng.randint(-2, 5))})
+    if rng.random() < 0.4:
+        t = rng.choice(g)
+        g.append(G.scale_term(t, rng.choice([2.0, 0.5])) if rng.random() < 0.5 else {"c": dict(t["c"]), "k": t["k"] + 1.0})
+    if rng.random() < 0.3:
+        rng.shuffle(g)
+    return {"kind": "ctor", "via": "init" if rng.random() < 0.7 else "method", "c": {"ins": ins, "outs": outs, "a": a, "g": g}, "chain": chain}
 
 
 def json_ne(a, b):
